@@ -250,6 +250,91 @@ pub fn run(out_path: &str, _seed: u64, _thorough: bool) -> (u64, u64, u64) {
         let n = FREED.lock().unwrap().iter().filter(|&&x| x == block).count();
         lg.expect(&format!("the block was freed {} times after every reference was released", n), n == 1, &["C04", "C03"]);
     }
+    // ---------------- bulk constructors through the Iterator interface: whatever adaptor consumes the iterator, every
+    // share is either yielded (and then owned by the caller) or released, and the object is destructed exactly once
+    const BULK: &[&str] = &["C10", "C04", "C01"];
+    for scenario in 0..14u32 {
+        for count in [0usize, 1, 2, 3, 5] {
+            for _ in 0..4 {
+                round();
+            }
+            DROPS.store(0, SeqCst);
+            let mut kept: Vec<Rc<Node>> = vec![];
+            let mut it = Rc::new_many_iter(node(7), count);
+            let what = match scenario {
+                0 => { drop(it); "drop of the unconsumed iterator".to_string() }
+                1 => { { let g = circ::cs(); it.abort(&g); } "abort of the unconsumed iterator".to_string() }
+                2 => { kept.extend(it); "full consumption".to_string() }
+                3 => { if let Some(r) = it.next() { kept.push(r); } drop(it); "next() then drop".to_string() }
+                4 => { if let Some(r) = it.next() { kept.push(r); } { let g = circ::cs(); it.abort(&g); } "next() then abort".to_string() }
+                5 => { if let Some(r) = it.nth(1) { kept.push(r); } drop(it); "nth(1) then drop".to_string() }
+                6 => { if let Some(r) = it.nth(count) { kept.push(r); } drop(it); "nth(count) (past the end) then drop".to_string() }
+                7 => { if let Some(r) = it.nth(count + 3) { kept.push(r); } { let g = circ::cs(); it.abort(&g); } "nth(count+3) then abort".to_string() }
+                8 => { kept.extend(it.skip(2)); "skip(2)".to_string() }
+                9 => { kept.extend(it.skip(count)); "skip(count)".to_string() }
+                10 => { kept.extend(it.step_by(2)); "step_by(2)".to_string() }
+                11 => { kept.extend(it.take(1)); "take(1)".to_string() }
+                12 => { if let Some(r) = it.last() { kept.push(r); } "last()".to_string() }
+                _ => { let n = it.count(); lg.expect(&format!("new_many_iter(_, {}).count() returned {}", count, n), n == count, BULK); "count()".to_string() }
+            };
+            // the owners the caller holds are what the strong field must say
+            if let Some(r0) = kept.first() {
+                let probe = r0.downgrade();
+                lg.counts(&format!("Rc::new_many_iter(_, {}) consumed by {}: {} owners held", count, what, kept.len()), &probe, kept.len() as u32, 2, BULK);
+                drop(probe);
+            }
+            lg.expect(&format!("Rc::new_many_iter(_, {}) consumed by {}: the object was destructed while {} owners are held", count, what, kept.len()),
+                      kept.is_empty() || DROPS.load(SeqCst) == 0, BULK);
+            drop(kept);
+            for _ in 0..10 {
+                round();
+            }
+            let d = DROPS.load(SeqCst);
+            lg.expect(&format!("Rc::new_many_iter(_, {}) consumed by {}: after every owner was released the object was destructed {} times", count, what, d), d == 1, BULK);
+        }
+    }
+    // new_many::<N>: N owners
+    {
+        for _ in 0..4 {
+            round();
+        }
+        DROPS.store(0, SeqCst);
+        let arr: [Rc<Node>; 3] = Rc::new_many(node(8));
+        let probe = arr[0].downgrade();
+        lg.counts("Rc::new_many::<3>", &probe, 3, 2, BULK);
+        let ws: [Weak<Node>; 4] = arr[1].weak_many();
+        lg.counts("Rc::weak_many::<4>", &probe, 3, 6, &["C10", "C03"]);
+        drop(ws);
+        lg.counts("drop of the array of Weak", &probe, 3, 2, &["C10", "C03"]);
+        drop(arr);
+        drop(probe);
+        for _ in 0..10 {
+            round();
+        }
+        lg.expect("Rc::new_many::<3>: the object was not destructed exactly once after the array was dropped", DROPS.load(SeqCst) == 1, BULK);
+        // weak_many as the FIRST weak operation on an object
+        DROPS.store(0, SeqCst);
+        FREED.lock().unwrap().clear();
+        let r = Rc::new(node(9));
+        let ws: [Weak<Node>; 3] = r.weak_many();
+        lg.counts("Rc::weak_many::<3> as the first weak operation", &ws[0], 1, 4, &["C10", "C03"]);
+        let block = circ::verif::weak::weak_word(&ws[0]) & !7usize & !(0xFusize << 60);
+        let [w0, w1, w2] = ws;
+        drop(w0);
+        drop(r);
+        for _ in 0..10 {
+            round();
+        }
+        lg.expect("the block was freed while two of the Weaks of weak_many are alive", !FREED.lock().unwrap().contains(&block), &["C03", "C10"]);
+        lg.expect("upgrade of a Weak of weak_many after destruction", w1.upgrade().is_none(), &["C05"]);
+        drop(w1);
+        drop(w2);
+        for _ in 0..10 {
+            round();
+        }
+        let n = FREED.lock().unwrap().iter().filter(|&&x| x == block).count();
+        lg.expect(&format!("weak_many: the block was freed {} times after every reference was released", n), n == 1, &["C04", "C03"]);
+    }
     let mut nf = 0u64;
     for (what, props) in &lg.fails {
         for p in props.iter() {
